@@ -30,6 +30,39 @@
 (*     possible, no live-context caller is blocked; a live caller does not spin.             *)
 (*  Memo: the function is entered at most once; every caller returns that call's pair; no    *)
 (*     caller is blocked once the call has returned.                                         *)
+(*                                                                                          *)
+(* What the logged events bound.  "fnenter" / "fnleave" are logged by the harness-owned      *)
+(* function itself: they ARE the entry and the return of the wrapped function (exact, at any *)
+(* granularity).  "call" is logged before Resolve / the memoized function is entered, "ret"   *)
+(* after it has returned, "cancel" before cancel() is called:                                 *)
+(*   B1  the critical section in which a Resolve reads o.prom (and every later one of its     *)
+(*       loop) lies after its logged call; the promise it returns from was read there;        *)
+(*   B2  a result delivered to a caller was produced by a function call whose "fnleave" is    *)
+(*       logged before the caller's "ret"; the error of call k is delivered only after k's    *)
+(*       worker has cleared o.prom, so a Resolve logged-started after a logged "ret" with     *)
+(*       that error cannot read k's promise any more;                                         *)
+(*   B3  after the "fnleave" of a successful call k, o.prom is k's promise for ever (only     *)
+(*       k's own error path would clear it): every Resolve logged-started after it joins k;   *)
+(*   B4  a context is not cancelled before its logged "cancel";                               *)
+(*   B5  a "quiet" observation is exact: no goroutine is parked at any hook (in executions    *)
+(*       where the end of a critical section is a park point, sched.Exec.ParkUnl: not there   *)
+(*       either), every caller in flight is durably blocked in its select, nothing ready.     *)
+(* Every condition below rests on these bounds only - none takes the logged return of a call  *)
+(* as its linearization point - so the monitor is the same for coarse executions, for         *)
+(* executions with park points at the END of critical sections (a caller stops between its    *)
+(* section and its select and enters the select with result and cancellation both ready; the  *)
+(* worker stops between `o.prom = nil` and its ctx.Err() check), for combined "grant &        *)
+(* cancel" steps (sched.Exec.Double) and for the free-running burst; the "cfg" event the      *)
+(* driver logs (granularity of the execution) is not needed by any condition and is ignored:  *)
+(*   Overlap, CalledAfterSuccess, MemoCalledTwice     exact events only.                      *)
+(*   ValueFromNowhere, ErrorFromNowhere, MemoWrongResult   B2.                                *)
+(*   NotMemoized      B1 + B3 (success known at the logged call).                             *)
+(*   StaleError       B1 + B2 (error already delivered at the logged call).                   *)
+(*   SpuriousCancel   B4 (Resolve returns Canceled only after reading ctx.Err() # nil).       *)
+(*   CancelStuck, Stuck, MemoStuck   B5 + exact fnenter/fnleave + B4; a cancelled caller that *)
+(*                    raced with a result may have returned either (R5), nothing is demanded  *)
+(*                    of which.                                                                *)
+(*   Spin             the controller's observation.                                           *)
 EXTENDS Naturals, FiniteSets, Sequences, TLC
 
 VARIABLES
